@@ -112,7 +112,7 @@ func genC13(t *rapid.T) c13Case {
 		c.U = rapid.SliceOfN(rapid.Uint32(), 8, 8).Draw(t, "u")
 	}
 	if c.Kind == "hugelen" {
-		c.Huge = pick(t, "huge", uint32(1<<26), 1<<27, 1<<30, 1<<31-1, 1<<31, 1<<32-1, 8193, 401, 65, 1<<20+1)
+		c.Huge = pick(t, "huge", uint32(1<<26), 1<<27, 1<<30, 1<<31-1, 1<<31, 1<<32-1, 8193, 401, 65, 1<<20+1, 32768, 65536, 100000, 500000, 1<<20)
 		c.Where = pick(t, "where", "string", "fh", "cred", "verf", "fragment", "authsys-name", "authsys-gids")
 	}
 	return c
@@ -467,8 +467,15 @@ func runC13(tb stat.TB, c c13Case) {
 			viol("huge-declared-length-accepted", "declared length %d in %s backed by %d bytes was accepted", c.Huge, c.Where, len(in))
 			return
 		}
-		if alloc > 1<<20 {
-			viol("huge-declared-length-allocates", "declared length %d in %s: %d bytes allocated before rejection", c.Huge, c.Where, alloc)
+		// "rejected before any allocation of that size": a declared length beyond the field's documented limit
+		// must not make the decoder allocate anything near it
+		limit := map[string]uint32{"string": 8192, "fh": 64, "cred": 400, "verf": 400, "fragment": 1 << 20, "authsys-name": 8192, "authsys-gids": 16}[c.Where]
+		bound := uint64(c.Huge&0x7fffffff) / 2
+		if bound > 1<<20 {
+			bound = 1 << 20
+		}
+		if c.Huge&0x7fffffff > limit && c.Huge&0x7fffffff >= 32768 && alloc > bound {
+			viol("huge-declared-length-allocates", "declared length %d in %s (limit %d): %d bytes allocated before rejection", c.Huge, c.Where, limit, alloc)
 			return
 		}
 	}
